@@ -177,6 +177,31 @@ def check_sort(ld, vals, backing, upstream, reverse, res):
             res.violation('sort-len', case, {'len': len(out_ds)}, sig=sig)
     except BaseException as e:
         res.violation('sort-len-raised', case, exc_sig(e), sig=sig)
+    # the sorted dataset transported (deep copy; pickle round trip where the
+    # pipeline below can be pickled - what a process backend or a checkpoint
+    # does): still the same permutation
+    import copy as _copy
+    import pickle as _pickle
+    for how in ('deepcopy', 'pickle'):
+        try:
+            t = _copy.deepcopy(out_ds) if how == 'deepcopy' else \
+                _pickle.loads(_pickle.dumps(out_ds))
+        except BaseException:
+            res.count('sorted_dataset_not_transportable')
+            continue
+        try:
+            tout = [get(e) for e in t]
+            tlen = len(t)
+        except BaseException as e:
+            res.violation('sort-not-a-permutation', {**case, 'transported_by': how},
+                          exc_sig(e), sig={**sig, 'transported': how})
+            return
+        res.count('transported_sorted_datasets_compared')
+        if tout != out or tlen != n:
+            res.violation('sort-not-a-permutation', {**case, 'transported_by': how},
+                          {'out': tout, 'want': out, 'len': tlen},
+                          sig={**sig, 'transported': how})
+            return
     if backing == 'dict' and upstream != 'items':
         try:
             keys = list(out_ds.keys()) if n else None
